@@ -308,35 +308,45 @@ theorem climb_inv (doc : Node) (f t : Nat) (r : RPos) (hr : doc.resolve f = some
       exact climb_inv doc f t r hr fuel _ _ (climbInv_step doc f t r hr depth dist I hc.1.1 hc.1.2 hc.2)
     · exact I
 
-/-- from a node boundary, `content_between` answers "no" only for closes-then-opens ranges -/
+/-- `content_between` answers "no" only for closes-then-opens ranges (a non-empty range starting
+    inside a text node is answered "yes" by the early branch) -/
 theorem contentBetween_structural' (doc : Node) (f t : Nat) (hft : f ≤ t)
-    (hb : atBoundary doc f = true) (h : contentBetween doc f t = some false) :
+    (h : contentBetween doc f t = some false) :
     structuralOnly (((ftoks doc.kids).drop f).take (t - f)) = true := by
-  unfold atBoundary at hb
+  by_cases hemp : t - f = 0
+  · rw [hemp]; simp [structuralOnly]
   unfold contentBetween at h
   cases hr : doc.resolve f with
-  | none => simp [hr] at hb
+  | none => simp [hr] at h
   | some r =>
-    rw [hr] at hb h
-    simp only [beq_iff_eq] at hb h
-    have R := resolve_resolved hr
-    have I := climb_inv doc f t r hr (r.depth + 1) r.depth (t - f) (climbInv_init doc f t r hft R hb)
-    generalize hc : contentBetween.climb r (r.depth + 1) r.depth (t - f) = cd at h I
-    obtain ⟨d', dist'⟩ := cd
-    simp only at h I
-    have hle := I.le
-    rw [take_split _ (t - dist' - f) (t - f) (by omega), structuralOnly_append, I.so, Bool.true_and,
-      List.drop_drop, show f + (t - dist' - f) = t - dist' by omega,
-      show t - f - (t - dist' - f) = dist' by omega]
-    by_cases hd0 : dist' > 0
-    · rw [if_pos hd0] at h
-      simp only [Option.some.injEq] at h
-      refine descend_false dist' _ _ h ?_
-      intro n hn
-      have hw := window_child _ _ _ _ _ (R.window_kids d' I.hd) hn
-      rw [← I.at_] at hw
-      exact ⟨((ftoks doc.kids).drop (t - dist')).drop n.size, by rw [← hw, List.take_append_drop]⟩
-    · have : dist' = 0 := by omega
-      subst this; simp [structuralOnly]
+    rw [hr] at h
+    simp only at h
+    by_cases hb : r.textOffset = 0
+    · have hcond : (decide (t - f > 0) && r.textOffset != 0) = false := by simp [hb]
+      rw [hcond] at h
+      simp only [Bool.false_eq_true, if_false] at h
+      have R := resolve_resolved hr
+      have I := climb_inv doc f t r hr (r.depth + 1) r.depth (t - f) (climbInv_init doc f t r hft R hb)
+      generalize hc : contentBetween.climb r (r.depth + 1) r.depth (t - f) = cd at h I
+      obtain ⟨d', dist'⟩ := cd
+      simp only at h I
+      have hle := I.le
+      rw [take_split _ (t - dist' - f) (t - f) (by omega), structuralOnly_append, I.so, Bool.true_and,
+        List.drop_drop, show f + (t - dist' - f) = t - dist' by omega,
+        show t - f - (t - dist' - f) = dist' by omega]
+      by_cases hd0 : dist' > 0
+      · rw [if_pos hd0] at h
+        simp only [Option.some.injEq] at h
+        refine descend_false dist' _ _ h ?_
+        intro n hn
+        have hw := window_child _ _ _ _ _ (R.window_kids d' I.hd) hn
+        rw [← I.at_] at hw
+        exact ⟨((ftoks doc.kids).drop (t - dist')).drop n.size, by rw [← hw, List.take_append_drop]⟩
+      · have : dist' = 0 := by omega
+        subst this; simp [structuralOnly]
+    · have hcond : (decide (t - f > 0) && r.textOffset != 0) = true := by
+        simp [hb]; omega
+      rw [hcond] at h
+      simp at h
 
 end PM
